@@ -235,9 +235,25 @@ impl<'tcx> Interp<'tcx> {
                     // a bare `return` block is not a join point: outcomes are merged (or kept as
                     // partitions for boolean results) at the Return target instead
                     if let Some(mb) = m {
-                        let d = &bi.body.basic_blocks[cfg_bb(mb)];
-                        let only_storage = d.statements.iter().all(|s| matches!(s.kind, StatementKind::StorageDead(_) | StatementKind::StorageLive(_) | StatementKind::Nop));
-                        if only_storage && matches!(d.terminator.as_ref().map(|t| &t.kind), Some(TerminatorKind::Return)) && !stop.contains(&mb) {
+                        // ... also when it is reached through a chain of storage-only `goto` blocks
+                        let mut cur = mb;
+                        let mut ret_like = false;
+                        for _ in 0..16 {
+                            let d = &bi.body.basic_blocks[cfg_bb(cur)];
+                            let only_storage = d.statements.iter().all(|s| matches!(s.kind, StatementKind::StorageDead(_) | StatementKind::StorageLive(_) | StatementKind::Nop));
+                            if !only_storage || stop.contains(&cur) {
+                                break;
+                            }
+                            match d.terminator.as_ref().map(|t| &t.kind) {
+                                Some(TerminatorKind::Return) => {
+                                    ret_like = true;
+                                    break;
+                                }
+                                Some(TerminatorKind::Goto { target }) => cur = target.as_usize(),
+                                _ => break,
+                            }
+                        }
+                        if ret_like {
                             m = None;
                         }
                     }
@@ -248,19 +264,57 @@ impl<'tcx> Interp<'tcx> {
                         }
                     }
                     let mut merged = Outcomes::new();
+                    let mut at_m: Vec<(u8, State)> = Vec::new();
                     for (val, tgt) in edges {
                         let mut s2 = st.clone();
                         if !self.assume_switch(&mut s2, discr, val, &vals) {
                             continue;
                         }
-                        let o = self.exec_from(tgt, 0, &sub, s2, false);
+                        let mut o = self.exec_from(tgt, 0, &sub, s2, false);
+                        // in a bool-returning function, arms that have already decided the result
+                        // differently are not joined at the post-dominator (kept as result partitions)
+                        if bi.ret_bool {
+                            if let Some(mm) = m {
+                                if !stop.contains(&mm) {
+                                    if let Some(sm) = o.take(Tgt::Block(mm)) {
+                                        let fi = self.fi() as usize;
+                                        let key: u8 = match &sm.frames[fi].locals[0] {
+                                            Val::Int(i) => match i.is_const() {
+                                                Some(0) => 0,
+                                                Some(_) => 1,
+                                                None => 2,
+                                            },
+                                            _ => 3,
+                                        };
+                                        match at_m.iter_mut().find(|e| e.0 == key) {
+                                            Some(e) => e.1 = e.1.join(&sm),
+                                            None => at_m.push((key, sm)),
+                                        }
+                                    }
+                                }
+                            }
+                        }
                         merged.merge(o);
                         if self.over_budget {
                             return acc;
                         }
                     }
                     let cont = match m {
-                        Some(m) if !stop.contains(&m) => merged.take(Tgt::Block(m)).map(|s| (m, s)),
+                        Some(m) if !stop.contains(&m) => {
+                            if bi.ret_bool {
+                                while at_m.len() > 1 {
+                                    let (_, s) = at_m.pop().unwrap();
+                                    let o = self.exec_from(m, 0, stop, s, false);
+                                    acc.merge(o);
+                                    if self.over_budget {
+                                        return acc;
+                                    }
+                                }
+                                at_m.pop().map(|(_, s)| (m, s))
+                            } else {
+                                merged.take(Tgt::Block(m)).map(|s| (m, s))
+                            }
+                        }
                         _ => None,
                     };
                     acc.merge(merged);
@@ -340,7 +394,8 @@ impl<'tcx> Interp<'tcx> {
             let ver = st.frames[fi].vers[l as usize];
             st.frames[fi].callres.retain(|e| e.0 != l);
             st.frames[fi].callres.push((l, ver, key.clone()));
-            Rc::make_mut(&mut st.facts).insert(key.clone(), (lo, hi));
+            self.fact_gen += 1;
+            Rc::make_mut(&mut st.facts).insert(key.clone(), (lo, hi, self.fact_gen));
         }
     }
 
@@ -721,6 +776,8 @@ impl<'tcx> Interp<'tcx> {
             let mut d = std::collections::BTreeMap::new();
             d.insert("args".to_string(), probe_args.join(" ; "));
             d.insert("facts".to_string(), probe_facts.clone());
+            // path facts of every returned partition, with the returned value
+            d.insert("ret_facts".to_string(), out.iter().map(|(s, v)| format!("{} <= {}", v.short(), s.facts.iter().map(|(k, v)| format!("{} => [{},{}]", k, v.0, v.1)).collect::<Vec<_>>().join(" ;; "))).collect::<Vec<_>>().join(" || "));
             let mut j: Option<Val> = None;
             for (_, v) in out.iter() {
                 j = Some(match j {
